@@ -258,4 +258,5 @@ def all_exprs(size, leaves, binops, unops):
                     yield ("index", a, ("var", "i"))
 
 
-FALSE_TYPEAHEAD = re.compile(r"(^|\(|;|\{|\}|:)\s*[A-Za-z_]\w*(\s*\.\s*[A-Za-z_]\w*)*\s*<[^;]*>\s*[A-Za-z_]")
+# after the lookahead repair only `Id < type-argument-like tokens > Id` is still claimed as a type (known finding C14-generic-lookahead)
+FALSE_TYPEAHEAD = re.compile(r"(^|\(|;|\{|\}|:)\s*[A-Za-z_]\w*(\s*\.\s*[A-Za-z_]\w*)*\s*<[\w\s.,<>\[\]]*>\s*[A-Za-z_]")
